@@ -588,6 +588,11 @@ class AtLeastKInARow(_KInARow):
                 implications.append(If(And([Not(sublist[0]), sublist[1]]), And(sublist[2:])))
             # Ending corner case
             implications.append(If(Not(sublists[-1][1]), Not(Or(sublists[-1][2:]))))
+            # ... and a run can't start any later than that, either
+            if len(sublists) > 1:
+                last = sublists[-1]
+                for j in range(3, len(last)):
+                    implications.append(If(Not(last[j-1]), Not(last[j])))
 
         if not implications:
             return
